@@ -77,11 +77,25 @@ def cases(tier, seed):
 
 # ----------------------------------------------------------------------------------------------
 def int_keys(doc):
+    """the document as a YAML author may write it: numeric status codes and numeric discriminator-mapping keys left unquoted"""
     d = copy.deepcopy(doc)
     for p, item in (d.get("paths") or {}).items():
         for m, op in item.items():
             if isinstance(op, dict) and isinstance(op.get("responses"), dict):
                 op["responses"] = {(int(k) if isinstance(k, str) and k.isdigit() else k): v for k, v in op["responses"].items()}
+
+    def walk(node):
+        if isinstance(node, dict):
+            disc = node.get("discriminator")
+            if isinstance(disc, dict) and isinstance(disc.get("mapping"), dict):
+                disc["mapping"] = {(int(k) if isinstance(k, str) and k.isdigit() else k): v for k, v in disc["mapping"].items()}
+            for v in node.values():
+                walk(v)
+        elif isinstance(node, list):
+            for v in node:
+                walk(v)
+
+    walk(d.get("components") or {})
     return d
 
 
